@@ -99,3 +99,37 @@ pub proof fn lemma_tag_done_frame(b: Seq<u8>, b2: Seq<u8>, j: int, n: int, limit
     assert(b2.subrange(off, off + 2) =~= b.subrange(off, off + 2));
     lemma_so_frame(b, b2, off + 2, ns);
 }
+// ---- a tags section embedded at absolute offset `base` of a larger buffer (filters) ----
+pub proof fn lemma_so_shift(out: Seq<u8>, base: int, start: int, n: int)
+    requires 0 <= base, 0 <= start, 0 <= n, so(out, base + start, n) <= out.len()
+    ensures so(out.subrange(base, out.len() as int), start, n) + base == so(out, base + start, n)
+    decreases n
+{
+    if n > 0 {
+        lemma_so_mono(out, base + start, n - 1, n);
+        lemma_so_shift(out, base, start, n - 1);
+        let s = out.subrange(base, out.len() as int);
+        let p = so(s, start, n - 1);
+        lemma_so_mono(out, base + start, 0, n - 1);
+        assert(s.subrange(p, p + 2) =~= out.subrange(base + p, base + p + 2));
+    }
+}
+// tag j of the section at `base` is complete (absolute coordinates), has a name, and ends at or before `limit`
+pub open spec fn ftag_done(out: Seq<u8>, base: int, j: int, n: int, limit: int) -> bool {
+    let off = base + u16_at(out, base + 4 + 2 * j);
+    base + 4 + 2 * n <= off && u16_at(out, off) >= 1 && off + 2 <= so(out, off + 2, u16_at(out, off)) && so(out, off + 2, u16_at(out, off)) <= limit
+}
+pub proof fn lemma_ftag_done_frame(b: Seq<u8>, b2: Seq<u8>, base: int, j: int, n: int, limit: int)
+    requires ftag_done(b, base, j, n, limit), limit <= b.len(), b2.len() == b.len(), 0 <= j < n, 0 <= base,
+        forall|i: int| ((base + 4 + 2 * j <= i < base + 4 + 2 * j + 2)
+            || (base + u16_at(b, base + 4 + 2 * j) <= i < so(b, base + u16_at(b, base + 4 + 2 * j) + 2, u16_at(b, base + u16_at(b, base + 4 + 2 * j))))) ==> #[trigger] b2[i] == b[i],
+    ensures ftag_done(b2, base, j, n, limit)
+{
+    let slot = base + 4 + 2 * j;
+    assert(b2.subrange(slot, slot + 2) =~= b.subrange(slot, slot + 2));
+    let off = base + u16_at(b, slot);
+    let ns = u16_at(b, off);
+    lemma_so_mono(b, off + 2, 0, ns);
+    assert(b2.subrange(off, off + 2) =~= b.subrange(off, off + 2));
+    lemma_so_frame(b, b2, off + 2, ns);
+}
